@@ -127,7 +127,7 @@ Lemma Div_catch c w w' : Div m w w' ->
 Proof.
   intros [a b c0 d e f g gc h i]. unfold catch.
   assert (G : Div m (set_mod w m (set_active (w_mod w m) false)) w').
-  { constructor; cbn [w_buf w_mod set_mod]; rewrite ?N.eqb_refl; cbn [timers nw inc bud tpanics catchf shut set_active]; try assumption.
+  { constructor; cbn [w_buf w_mod set_mod]; rewrite ?N.eqb_refl; cbn [timers nw inc bud tfin catchf shut set_active]; try assumption.
     intros j Hj. apply N.eqb_neq in Hj. rewrite Hj. apply b. apply N.eqb_neq, Hj. }
   destruct (catchf (w_mod w m)); cbn [fst]; (split; [|cbn [w_mod set_err set_mod]; rewrite N.eqb_refl; reflexivity]); [exact G|].
   destruct G as [a' b' c' d' e' f' g' gc' h' i']. constructor; assumption.
@@ -137,11 +137,11 @@ Lemma at_sim_start0_post now s s' : AgreeX m s s' ->
   Post (fst (at_sim_start (nmods sc) (cfg sc m) now m 0 s)) (fst (at_sim_start (nmods sc') (cfg sc' m) now m 0 s')).
 Proof.
   intros H. pose proof H as [Ha Hl]. unfold at_sim_start. rewrite N.eqb_refl, nmods', cfg_self, pick_start_quiet.
-  change (c_tasks (quiet_cfg (cfg sc m))) with (c_tasks (cfg sc m)). rewrite <- (ag_mod _ _ _ Ha).
-  destruct (exec_quiet (nmods sc) now m (CbStart 0) (c_tasks (cfg sc m)) (pick_start (cfg sc m) (inc (w_mod (x_w s) m))) s s' H)
+  change (c_spawn (quiet_cfg (cfg sc m))) with (c_spawn (cfg sc m)). rewrite <- (ag_mod _ _ _ Ha).
+  destruct (exec_quiet (nmods sc) now m (CbStart 0) (c_spawn (cfg sc m)) (pick_start (cfg sc m) (inc (w_mod (x_w s) m))) s s' H)
     as [(E1 & E2 & E3)|(E1 & E2 & E3)];
-    destruct (exec (nmods sc) now m (CbStart 0) (c_tasks (cfg sc m)) (pick_start (cfg sc m) (inc (w_mod (x_w s) m))) s) as [s1 p1];
-    destruct (exec (nmods sc) now m (CbStart 0) (c_tasks (cfg sc m)) (map quiet_act (pick_start (cfg sc m) (inc (w_mod (x_w s) m)))) s') as [s1' p1'];
+    destruct (exec (nmods sc) now m (CbStart 0) (c_spawn (cfg sc m)) (pick_start (cfg sc m) (inc (w_mod (x_w s) m))) s) as [s1 p1];
+    destruct (exec (nmods sc) now m (CbStart 0) (c_spawn (cfg sc m)) (map quiet_act (pick_start (cfg sc m) (inc (w_mod (x_w s) m)))) s') as [s1' p1'];
     cbn [fst snd] in *; subst p1 p1'.
   - left. cbn [catch fst x_w]. exact (proj1 E3).
   - right. destruct (Div_catch (cfg sc m) _ _ E3) as [D1 D2].
@@ -177,11 +177,11 @@ Lemma at_sim_start0_flags now s s' : AgreeX m s s' ->
    snd (at_sim_start (nmods sc') (cfg sc' m) now m 0 s') = false).
 Proof.
   intros H. pose proof H as [Ha Hl]. unfold at_sim_start. rewrite N.eqb_refl, nmods', cfg_self, pick_start_quiet.
-  change (c_tasks (quiet_cfg (cfg sc m))) with (c_tasks (cfg sc m)). rewrite <- (ag_mod _ _ _ Ha).
-  destruct (exec_quiet (nmods sc) now m (CbStart 0) (c_tasks (cfg sc m)) (pick_start (cfg sc m) (inc (w_mod (x_w s) m))) s s' H)
+  change (c_spawn (quiet_cfg (cfg sc m))) with (c_spawn (cfg sc m)). rewrite <- (ag_mod _ _ _ Ha).
+  destruct (exec_quiet (nmods sc) now m (CbStart 0) (c_spawn (cfg sc m)) (pick_start (cfg sc m) (inc (w_mod (x_w s) m))) s s' H)
     as [(E1 & E2 & E3)|(E1 & E2 & E3)];
-    destruct (exec (nmods sc) now m (CbStart 0) (c_tasks (cfg sc m)) (pick_start (cfg sc m) (inc (w_mod (x_w s) m))) s) as [s1 p1];
-    destruct (exec (nmods sc) now m (CbStart 0) (c_tasks (cfg sc m)) (map quiet_act (pick_start (cfg sc m) (inc (w_mod (x_w s) m)))) s') as [s1' p1'];
+    destruct (exec (nmods sc) now m (CbStart 0) (c_spawn (cfg sc m)) (pick_start (cfg sc m) (inc (w_mod (x_w s) m))) s) as [s1 p1];
+    destruct (exec (nmods sc) now m (CbStart 0) (c_spawn (cfg sc m)) (map quiet_act (pick_start (cfg sc m) (inc (w_mod (x_w s) m)))) s') as [s1' p1'];
     cbn [fst snd] in *; subst p1 p1'.
   - left. cbn [catch fst snd x_w]. split; [split; [exact (proj1 E3)|exact (proj2 E3)]|auto].
   - right. destruct (Div_catch (cfg sc m) _ _ E3) as [D1 D2]. cbn [catch] in *.
@@ -280,7 +280,7 @@ Proof.
       by (rewrite around_fst; fold s'; rewrite buf_process_fes, Hb2; unfold restart_of; rewrite Hsh'; reflexivity).
     assert (Ecs : consumed now (set_nw (w_mod (x_w s) m) (nw_after (w_mod (x_w s) m))) =
                   consumed now (set_nw (w_mod (x_w s') m) (nw_after (w_mod (x_w s') m))))
-      by (unfold consumed; cbn [inc bud nw tpanics catchf set_nw]; rewrite vi, vbu, vtp, vc, Enw; reflexivity).
+      by (unfold consumed; cbn [inc bud nw tfin catchf set_nw]; rewrite vi, vbu, vtp, vc, Enw; reflexivity).
     destruct (shut (w_mod (x_w s) m)) as [r|] eqn:Es.
     + (* a request was pending: both consume it, the worlds are equal again *)
       assert (Er : restart_of m (w_mod (x_w s') m) = restart_of m (w_mod (x_w s) m)) by (unfold restart_of; rewrite vs, Es; reflexivity).
